@@ -45,7 +45,7 @@ type Unmarshaler interface {
 
 func chooseUnmarshaler(identifier byte, config *configuration.Configuration) (unmarshaler Unmarshaler, err error) {
 	switch identifier {
-	case 'c':
+	case 'c', 'C':
 		unmarshaler = cte.NewUnmarshaler(config)
 	case cbe.CBESignatureByte:
 		unmarshaler = cbe.NewUnmarshaler(config)
